@@ -26,6 +26,37 @@ CATALOG = {
         "note": "Partial: structural clauses only. Not decided: that the kernel reports sentinel readiness, detection latency, exit-code text, "
                 "the win32 arm. Trusted: extractor, points-to, stdlib semantics of multiprocessing.connection.wait.",
     },
+    "C05": {
+        "ref": "DESIGN.md section 4 C05",
+        "technique": "static analysis: dominance ordering of shutdown effects, guard decision table (16 rows) of the shutting-down predicate, "
+                     "escape analysis + heap reachability for the manager->executor reference, lock context of joins",
+        "level": "Decides for every path of the current source: shutdown() flags under the lock, wakes, joins only on `wait` under the lock shared "
+                 "with the at-exit hook; the shutting-down predicate equals G or ((N or S) and not B) on all 16 rows; the manager exits only on "
+                 "empty pending; the drain releases every exit lock under the management lock, posts exactly as many non-blocking sentinels as "
+                 "released workers, then closes call queue -> joins feeder -> closes result queue -> closes wake-up under its lock -> joins every "
+                 "worker; the manager holds no strong reference to the executor; the at-exit hook wakes all then joins all registered managers.",
+        "note": "Partial: structural clauses. Known findings D3/D4 (respawn after shutdown(wait=False) / after executor GC) are listed in "
+                "known_findings.json. Not decided: a worker crashing inside the shutdown phase; effectiveness of join_thread().",
+    },
+    "C07": {
+        "ref": "DESIGN.md section 4 C07",
+        "technique": "static analysis: CFG path rules on the worker main (non-blocking probe, announce-then-wait, no exit with a task), "
+                     "decision table of the respawn guard over order types of (pending, running, workers), lock context at spawn sites",
+        "level": "Decides on all paths of the worker loop that a timeout exit goes through a successful non-blocking probe of the management lock, "
+                 "that a failed probe resumes waiting, that no exit happens with a task in hand, that every clean exit announces the pid before "
+                 "waiting on the exit lock; on the manager side remove-under-lock -> release -> join without any broken/kill effect; the respawn "
+                 "guard is true on every row with pending>0 and no worker; spawn under the management lock.",
+        "note": "Partial. Known findings D3/D4 apply (respawn needs the live executor object and its un-nulled fields). Not decided: race outcomes as values.",
+    },
+    "C08": {
+        "ref": "DESIGN.md section 4 C08",
+        "technique": "static analysis: who-may-insert on the worker table (points-to), syntactic normal form of the spawn-loop guard, "
+                     "must-pass-through of the top-up in submit, decision table of the top-up condition",
+        "level": "Decides that the single insertion site of the worker table is guarded by len(table) < max_workers (strict), one insertion per "
+                 "iteration after start(), that every accepting submit path reaches the top-up whose condition is true whenever the pool is "
+                 "short, that spawn callers hold the management lock, and that the worker runs one call at a time.",
+        "note": "Partial: the upper-bound clause is decided structurally; 'parallelism is actually delivered' is scheduling/performance and is not decided.",
+    },
 }
 
 NOT_APPLICABLE = {}
